@@ -67,3 +67,41 @@ Theorem C01_F2_witness_repaired :
   cert01_run NumQ.NQ conv_Q release 1000 F2_A F2_B Intersection = true
   /\ boolean_operation release 1000 F2_A F2_B Intersection = Ok nil.
 Proof. exact F2_repaired. Qed.
+
+(** ** the full statement on the domain of the bounding-box shortcut (exact instance): for
+    operands with rational coordinates, closed rings without repeated consecutive vertices
+    ([closed_rings_vertices_are_starts]) and whose polygon reading is their even-odd reading
+    at [p], disjoint boxes give — for every configuration with the shortcut enabled and every
+    event budget — a result that is exactly the named region at EVERY point [p] of the plane *)
+From GB Require Import NumQ TrivialProofs BoxRegion BoxShortcut.
+
+Theorem C01_shortcut_returns_named_region :
+  forall cfg fuel (A B : list (FillQueue.polygon NQ)) (op : operation) (ra rb : list qpolygon),
+  c_noshort cfg = false ->
+  mpoly_q NQ conv_Q A = Some ra -> mpoly_q NQ conv_Q B = Some rb ->
+  vertices_are_starts A -> vertices_are_starts B ->
+  boxes_disjoint (f_sbbox (fill_queue A B op)) (f_cbbox (fill_queue A B op)) = true ->
+  exists R r,
+    boolean_operation cfg fuel A B op = Ok R /\ mpoly_q NQ conv_Q R = Some r /\
+    forall p,
+      inside_mpoly ra p = inside_eo (rings_of ra) p -> inside_mpoly rb p = inside_eo (rings_of rb) p ->
+      inside_mpoly r p = sem_op (bop_of op) (inside_eo (rings_of ra) p) (inside_eo (rings_of rb) p).
+Proof. exact shortcut_returns_named_region. Qed.
+
+Theorem C01_closed_rings_vertices_are_starts :
+  forall A : list (FillQueue.polygon NQ), Forall polygon_ok A -> vertices_are_starts A.
+Proof. exact closed_rings_vertices_are_starts. Qed.
+
+(** the geometric core: a point outside the bounding box of the vertices of a set of rings is
+    outside their even-odd region (closed rings have an even number of edges over any abscissa) *)
+Theorem C01_outside_box_outside_region :
+  forall (rs : list Slab.ring) (x0 y0 x1 y1 : Q) (p : Slab.qpt),
+  (forall r v, In r rs -> In v r -> in_box x0 y0 x1 y1 v) ->
+  ~ in_box x0 y0 x1 y1 p -> inside_eo rs p = false.
+Proof. exact outside_box_outside_region. Qed.
+
+Example C01_shortcut_example :
+  Forall polygon_ok (sqA :: nil) /\ Forall polygon_ok (sqB :: nil) /\
+  boxes_disjoint (f_sbbox (fill_queue (sqA :: nil) (sqB :: nil) Union)) (f_cbbox (fill_queue (sqA :: nil) (sqB :: nil) Union)) = true /\
+  exists ra rb, mpoly_q NQ conv_Q (sqA :: nil) = Some ra /\ mpoly_q NQ conv_Q (sqB :: nil) = Some rb.
+Proof. exact shortcut_example. Qed.
